@@ -9,13 +9,20 @@ def make_plan(prop, rng, idx, tier, variant="asan"):
     configurations are separate batches, chosen by the run index."""
     if prop == "C12":
         faults = (idx % 5) >= 3
-        plan = hist.gen_history(rng, "C12", faults=faults, reuse=(variant == "plain"))
+        damaged = (idx % 20) == 7
+        plan = hist.gen_history(rng, "C12", faults=faults, reuse=(variant == "plain"), damaged=damaged)
         plan["knobs"]["scon_fatal"] = 0
         if variant == "plain":
             plan["knobs"]["leakcheck"] = 0
-        return plan, ("faults" if faults else "nofault")
+        return plan, ("damaged-file" if damaged else "faults" if faults else "nofault")
     if prop == "C13":
         m = idx % 10
+        if variant == "vg":
+            # under memcheck: no LSan, no bombs at huge cost; short histories
+            plan = hist.gen_history(rng, "C13", faults=(m >= 8), sweep=(4 <= m < 7))
+            plan["knobs"]["leakcheck"] = 0
+            plan["knobs"]["watchdog_s"] = 120
+            return plan, "history"
         if m < 4:
             return hist.gen_history(rng, "C13", faults=False), "history"
         if m < 7:
